@@ -11,7 +11,7 @@ import (
 
 func init() {
 	register("C20", propMeta{
-		Explanation: "E-LOCK. A flow-sensitive must-lockset is computed over the SSA of every repository function (entry lockset = intersection over call sites, container/heap and sync.Once callbacks modelled as calls, goroutine bodies/callbacks/interface-exposed methods start empty). O-1: every read and write of every field in the explicit guarded-by table (built by reading the anchors; ~60 rows: matching state, metrics, client map, session maps, traffic counters) happens under its protection - the named mutex (write mode for writes), sync/atomic only, or immutable after publication (writes only to a not-yet-published fresh object or in a listed start-up function); for 'deep' rows the map/slice/list behind the field as well. O-2: every Lock/RLock is released on all paths, no Unlock of a lock not held, no self-deadlock, and the acquired-while-holding graph is acyclic. O-3: a field accessed through sync/atomic is never accessed plainly, including by copying the struct through a value receiver. O-4: a byte slice sent through a turbotunnel packet queue (and so handed to another goroutine) is a private copy made by the sender, never the caller's buffer, which the caller goes on writing. An access outside its protection is a pair of conflicting accesses with no ordering synchronisation for some schedule, i.e. a data race; each rule is therefore a necessary condition of race freedom for the listed state. Added after the second seeding round: O-5 no store through a package-level variable of another module or the standard library outside package initialisation and main's direct start-up assignments (D20, D21: http.DefaultTransport configured in place); O-6 a goroutine body (go target plus its single-call-site helpers) stores to, or slices an array field of, a non-fresh object only if the field has a row in the table or some repository lock is held there (D22).",
+		Explanation: "E-LOCK. A flow-sensitive must-lockset is computed over the SSA of every repository function (entry lockset = intersection over call sites, container/heap and sync.Once callbacks modelled as calls, goroutine bodies/callbacks/interface-exposed methods start empty). O-1: every read and write of every field in the explicit guarded-by table (built by reading the anchors; ~60 rows: matching state, metrics, client map, session maps, traffic counters) happens under its protection - the named mutex (write mode for writes), sync/atomic only, or immutable after publication (writes only to a not-yet-published fresh object or in a listed start-up function); for 'deep' rows the map/slice/list behind the field as well. O-2: every Lock/RLock is released on all paths, no Unlock of a lock not held, no self-deadlock, and the acquired-while-holding graph is acyclic. O-3: a field accessed through sync/atomic is never accessed plainly, including by copying the struct through a value receiver. O-4: a byte slice sent through a turbotunnel packet queue (and so handed to another goroutine) is a private copy made by the sender, never the caller's buffer, which the caller goes on writing. An access outside its protection is a pair of conflicting accesses with no ordering synchronisation for some schedule, i.e. a data race; each rule is therefore a necessary condition of race freedom for the listed state. Added after the second seeding round: O-5 no store through a package-level variable of another module or the standard library outside package initialisation and main's direct start-up assignments (D20, D21: http.DefaultTransport configured in place); O-6 a goroutine body (go target plus its single-call-site helpers) stores to, or slices an array field of, a non-fresh object only if the field has a row in the table or some repository lock is held there (D22). Added after the third seeding round: O-1b no method of a struct that carries its own mutex has a value receiver; deep accesses (map, slice, pointee) through a local copy of a struct are judged like accesses through the original.",
 		NotDecided:  "races on state outside the table (third-party objects, local variables captured by several closures), happens-before through channels other than the immutable-after-publication class, instance confusion (locks are named by type and field, not by object).",
 		Assumptions: []string{"lock identity is (type, field): two instances of one struct are not distinguished", "start-up writes listed in the table happen before any concurrent reader exists (single-goroutine initialisation in main)", "dynamic calls neither acquire nor release repository locks"},
 	}, runC20)
@@ -26,6 +26,7 @@ func runC20(c *Ctx) {
 		c.analysedFn(p.FnName(fn))
 	}
 	c.checkGuardRows("O-1 guarded-by table", guardTable, scope)
+	c.checkNoLockCopies("O-1b no by-value methods on self-locking structs", guardTable)
 	c.checkGlobalRows("O-1 guarded-by table", globalGuardTable)
 	c.checkLockPairing("O-2 lock pairing", scope)
 	c.checkLockOrder("O-2b lock order")
